@@ -272,8 +272,10 @@ func (s *v41srv) digest(conns []*v41conn, self int) string {
 		}
 		sc.sessionsLock.Unlock()
 		sort.Strings(ss)
-		if i == self {
-			// own sessions without handles come and go
+		if i == self || un {
+			// sessions without handles of unauthenticated connections come and go: own ones by
+			// the request itself, those of other unauthenticated connections because EndSession
+			// is not answered and is carried out asynchronously by a worker
 			var keep []string
 			for _, x := range ss {
 				if !strings.HasSuffix(x, ":h0/0/0") {
@@ -578,6 +580,7 @@ func TestVerifC41Unauth(t *testing.T) {
 		legit(victim, 0)
 		victim.request(r, 1, (&v41msg{}).byte_(byte(commands.SessionId)).str("victim").b, true)
 		// real work on the authenticated connection: handles the others will try to use
+		var openTrans []int // ended when the history ends (the server keeps them otherwise)
 		work := func() {
 			if victim.dead {
 				return
@@ -590,6 +593,7 @@ func TestVerifC41Unauth(t *testing.T) {
 			rb.SetBuf(rest)
 			tn := rb.GetInt()
 			g.handles = append(g.handles, tn)
+			openTrans = append(openTrans, tn)
 			ok, rest, _ = victim.request(r, 1, (&v41msg{}).byte_(byte(commands.Query)).int_(int64(tn)).str("scratch").b, true)
 			if ok {
 				rb.SetBuf(rest)
@@ -600,6 +604,7 @@ func TestVerifC41Unauth(t *testing.T) {
 				str(fmt.Sprintf("insert { k: %d, v: 'work' } into scratch", s.seq)).b, true)
 			if r.Intn(2) == 0 {
 				victim.request(r, 1, (&v41msg{}).byte_(byte(commands.Commit)).int_(int64(tn)).b, true)
+				openTrans = openTrans[:len(openTrans)-1]
 			}
 			ok, rest, _ = victim.request(r, 1, (&v41msg{}).byte_(byte(commands.Cursor)).str("secret").b, true)
 			if ok {
@@ -1026,8 +1031,24 @@ func TestVerifC41Unauth(t *testing.T) {
 				if name == "EndSession" {
 					before := s.digest(conns, ci)
 					k.request(r, 2, []byte{byte(idx)}, false)
-					// no reply: synchronise with a SessionId round trip on the same session
-					k.request(r, 2, (&v41msg{}).byte_(byte(commands.SessionId)).str("").b, true)
+					// no reply. The protocol allows one outstanding request per session, so the
+					// session must not be used again until the server has carried EndSession out
+					// (a worker does that asynchronously): wait until the session is gone
+					for i := 0; i < 5000; i++ {
+						serverConnsLock.Lock()
+						sc := serverConns[k.id]
+						gone := sc == nil
+						if sc != nil {
+							sc.sessionsLock.Lock()
+							gone = sc.sessions[2] == nil
+							sc.sessionsLock.Unlock()
+						}
+						serverConnsLock.Unlock()
+						if gone {
+							break
+						}
+						time.Sleep(time.Millisecond)
+					}
 					if after := s.digest(conns, ci); before != after {
 						tr.Fail("unauth-effect:state:cmdEndSession", before+" -> "+after)
 					}
@@ -1064,6 +1085,11 @@ func TestVerifC41Unauth(t *testing.T) {
 					why = "Timestamp refused: " + v41getStr(rest)
 				}
 				tr.Fail("unauth-effect:victim-unusable", fmt.Sprintf("history %d: the authenticated connection no longer answers (%s)", hist, why))
+			}
+		}
+		for _, tn := range openTrans {
+			if !victim.dead {
+				victim.request(r, 1, (&v41msg{}).byte_(byte(commands.Abort)).int_(int64(tn)).b, true)
 			}
 		}
 		for _, k := range conns {
